@@ -20,12 +20,14 @@ func propC07(r *Report, tier string) {
 	ruleRangeBoundGuards(r, "K5-range-bound-guards")
 	ruleSplitBaseCase(r, "K5-split-base-case")
 	ruleEnumeratorRadix(r, "K11-enumerator-radix")
+	ruleInclusiveFlagsSingleInterpreter(r, "K7-inclusive-flags-single-interpreter")
 	r.Floor("K11-precision-step", 3)
 	r.Floor("K11-prefix-coding", 4)
 	r.Floor("K5dep-float-maps-pure", 2)
-	r.Floor("K5-range-bound-guards", 2)
+	r.Floor("K5-range-bound-guards", 1)
 	r.Floor("K5-split-base-case", 2)
 	r.Floor("K11-enumerator-radix", 1)
+	r.Floor("K7-inclusive-flags-single-interpreter", 12)
 }
 
 func constUint(info *types.Info, e ast.Expr) (int64, bool) {
@@ -232,7 +234,7 @@ func ruleRangeBoundGuards(r *Report, rule string) {
 		return true
 	})
 	if n < 2 {
-		r.Ob(rule, fi.Name+"/exclusive-bound-steps", fi.Decl.Pos(), false, "expected the two exclusive->inclusive steps")
+		r.Ob(rule, fi.Name+"/exclusive-bound-steps", fi.Decl.Pos(), false, "an exclusive bound becomes inclusive by stepping the ORDER-PRESERVING int64 code by one (IncDec on the int64 bound, guarded against wrap-around); no such pair of steps was found. Stepping the float (math.Nextafter) is not equivalent: -0.0/+0.0 are two adjacent codes but one float step apart, NaN payloads (dates near 2262) collapse, and infinities do not move")
 	}
 }
 
